@@ -30,6 +30,15 @@ def _work(chunk):
             col.add(classify(q, None, "compile-crash"), f"compile raised {type(e).__name__}: {e}", {"query": q})
             continue
         try:
+            from bounded import reftree
+
+            cmp_ = reftree.compare(q, c)
+        except Exception:  # noqa: BLE001
+            cmp_ = None
+        if cmp_ is not None and not cmp_[0]:
+            col.add(classify(q, None, "wrong-tree"), "compile() built an object tree that differs from the reference reading of the query text (generic ABNF derivation)",
+                    {"query": q}, str(cmp_[1])[:400], str(cmp_[2])[:400])
+        try:
             wf = refsem.rfc_select.wf_query(c, env)
         except Exception:  # noqa: BLE001
             wf = False
@@ -65,7 +74,7 @@ def _work(chunk):
                     samples.append({"query": q, "document": doc, "result": [refsem.node_repr(n) for n in exp]})
         # the same compiled query applied again after the document was edited in place, and to a new document
         # (results must not depend on what the query was applied to before)
-        for doc in docs[:: max(1, len(docs) // 6)][:6]:
+        for doc in (docs if len(docs) <= 200 else docs[:: max(1, len(docs) // 40)][:40]):
             d1 = copy.deepcopy(doc)
             try:
                 list(c.find(d1))
